@@ -1284,6 +1284,7 @@ def r_retain(F, R, cat=None):
     n = 0
     for adt in cat.local_types():
         reported = set()
+        reported_elems = set()  # fields whose *elements* report capacity (a Vec of child regions)
         for hb in cat.methods(adt, "heap_size"):
             if unconditional_diverge(hb):
                 continue
@@ -1295,6 +1296,8 @@ def r_retain(F, R, cat=None):
                     for (f, rest) in self_field_targets(e, hctx):
                         if f:
                             reported.add(f)
+                            if rest[:1] == ("[]",):
+                                reported_elems.add(f)
         if not reported:
             continue
         for b in clear_methods(cat, adt):
@@ -1305,6 +1308,15 @@ def r_retain(F, R, cat=None):
             R.saw(b)
             bad = []
             for e in effs:
+                # dropping the elements of a collection whose elements report capacity (round 17:
+                # `self.inner.clear()` on ColumnsRegion's Vec of column regions drops the columns and
+                # their allocations; push recreates them empty, so the reported capacity shrinks)
+                if e.kind == "call" and e.tag[0] in ("Vec", "VecDeque") and \
+                        e.tag[1] in ("clear", "truncate", "drain", "pop", "split_off", "retain"):
+                    for (f, rest) in self_field_targets(e, ctx):
+                        if f in reported_elems and rest == ():
+                            bad.append("%s::%s on %s at line %s drops elements whose capacity heap_size reports" %
+                                       (e.tag[0], e.tag[1], f, e.line))
                 if e.cls != "assign":
                     continue
                 for (f, rest) in self_field_targets(e, ctx):
